@@ -234,6 +234,18 @@ def w_pca_random(ctx, rng, i):
     d = int(rng.integers(2, 41))
     k = int(rng.integers(1, 7))
     first = int(rng.integers(2, n - k + 1))
+    if rng.random() < 0.04:
+        # a small seed model followed by one big batch (a whole data set arriving at once), then a few more samples
+        d = int(rng.integers(3, 16))
+        first = int(rng.integers(3, 30))
+        big = int(rng.integers(1001, 2600))
+        tail = int(rng.integers(0, 6))
+        n = first + big + tail
+        centre = bool(rng.random() < 0.6)
+        comp = [first, big] + ([tail] if tail else [])
+        run_pca(ctx, rng, comp, d, centre, "plain")
+        ctx.count_case(("pca_random", "big_increment", centre), nontrivial=True)
+        return
     rest = n - first
     cuts = sorted(rng.choice(np.arange(1, rest), size=min(k - 1, max(0, rest - 1)), replace=False).tolist()) if rest > 1 and k > 1 else []
     comp = [first] + [b - a for a, b in zip([0] + cuts, cuts + [rest])]
@@ -279,7 +291,16 @@ def w_pca_object(ctx, rng, i):
     else:
         m = PCAModel(shapes[:first])
         for a in range(first, n, step):
+            if rng.random() < 0.5:
+                # the model is looked at between increments (its mean shape drawn, say)
+                mo = np.asarray(m.mean().as_vector(), dtype=float)
+                ctx.tap("object_mean_between_increments", "calls"); ctx.tap("object_mean_between_increments", "checked")
+                if _amax(mo - X[:a].mean(0)) > 1e-9 * max(1.0, np.abs(X).max()):
+                    ctx.fail("object_backed_incremental_differs_from_batch", cls="PCAModel", mech="mean_object:between_increments")
             m.increment(shapes[a:a + step])
+        mo = np.asarray(m.mean().as_vector(), dtype=float)
+        if _amax(mo - X.mean(0)) > 1e-9 * max(1.0, np.abs(X).max()):
+            ctx.fail("object_backed_incremental_differs_from_batch", cls="PCAModel", mech="mean_object:after_increments")
     b = PCAModel(shapes)
     ctx.tap("object_backed_vs_batch", "calls"); ctx.tap("object_backed_vs_batch", "checked")
     scale = max(1.0, np.abs(X).max())
